@@ -29,3 +29,22 @@ where
     rv.sort();
     rv
 }
+
+pub fn common_suffix_len<Old, New>(old: &Old, old_range: Range<usize>, new: &New, new_range: Range<usize>) -> usize
+where
+    Old: Index<usize> + ?Sized,
+    New: Index<usize> + ?Sized,
+{
+    old_range.len().min(new_range.len())
+}
+
+/// control A8: the old range is advanced, the new range is not, then both are used together
+pub fn a8_bad_lockstep<Old, New>(old: &Old, mut old_range: Range<usize>, new: &New, new_range: Range<usize>) -> usize
+where
+    Old: Index<usize> + ?Sized,
+    New: Index<usize> + ?Sized,
+{
+    let n = common_suffix_len(old, old_range.clone(), new, new_range.clone());
+    old_range.end -= n;
+    common_suffix_len(old, old_range.clone(), new, new_range.clone())
+}
